@@ -313,6 +313,9 @@ func cancelledRun(code *gojq.Code, in any, limit int, want []any) (msg string) {
 }
 
 func replayCase(sub string, raw json.RawMessage) string {
+	if sub == "options" {
+		return replayOpt(raw)
+	}
 	var c concCase
 	if err := json.Unmarshal(raw, &c); err != nil {
 		return "bad replay: " + err.Error()
@@ -342,6 +345,7 @@ func judge(t *rapid.T, sub string, c concCase) {
 func TestC06(t *testing.T) {
 	rec = evid.Open("C06")
 	defer rec.Close()
+	defer removeModDir()
 	rec.ShrinkTime = "20s"
 	var err error
 	if model, err = refjq.New(); err != nil {
@@ -379,6 +383,26 @@ func TestC06(t *testing.T) {
 	rec.Rapid(t, "general", rec.Scale(3000, 100000), func(t *rapid.T) {
 		rec.Class("tier/general")
 		judge(t, "general", draw(t, progs.Draw(t, "prog").Src))
+	})
+	vars := rapid.OneOf(inputs, rapid.SampledFrom([]any{
+		map[string]any{"a": map[string]any{"q": 1, "r": []any{1, 2}}}, []any{3, 1, 2, 1}, []any{[]any{2, 1}, []any{1}}, []any{map[string]any{"a": 2}, map[string]any{"a": 1}},
+	}))
+	rec.Rapid(t, "options", rec.Scale(3000, 100000), func(t *rapid.T) {
+		rec.Class("tier/options")
+		q := rapid.SampledFrom(optPrograms).Draw(t, "q")
+		if rapid.IntRange(0, 3).Draw(t, "compose") == 0 {
+			// imports come first: only import-free programs can follow
+			if q2 := rapid.SampledFrom(optPrograms).Draw(t, "q2"); !strings.Contains(q2, "import ") && !strings.Contains(q2, "include ") {
+				q = q + ", (" + q2 + ")"
+			}
+		}
+		g := gs.Draw(t, "goroutines")
+		reps := 3
+		if g == 32 {
+			reps = 1
+		}
+		judgeOpt(t, optCase{Query: q, Input: univ.V{X: inputs.Draw(t, "input")}, Var: univ.V{X: vars.Draw(t, "var")}, Goroutines: g, Reps: reps,
+			Mode: rapid.SampledFrom([]string{"code-shared", "code-shared", "compile-each"}).Draw(t, "mode")})
 	})
 	qs, err := corpus.Queries()
 	if err != nil {
